@@ -593,7 +593,7 @@ pub fn oracle_c06_value(c: &Ctor) -> Verdict {
         Err(e) => Verdict::fail("typeid-panic", panic_msg(&e)),
     }
 }
-fn fn_shapetype<S: HasShapeType>(_s: &S) -> ShapeType {
+pub fn fn_shapetype<S: HasShapeType>(_s: &S) -> ShapeType {
     S::shapetype()
 }
 
